@@ -50,6 +50,9 @@ def plan(tier, seed):
     if tier == "thorough":
         t.append(("repo-tests",))
     t.append(("helpers", seed))
+    # structured partial sets: uniform-letter operators on named graphs (large kernels, few and extreme solutions)
+    for i in range(16):
+        t.append(("uniform", (6 if q else 120), seed * 100 + i))
     random.Random(seed).shuffle(t)
     return t
 
@@ -180,6 +183,31 @@ def work(task):
     kind = task[0]
     if kind == "helpers":
         work_helpers(p, task[1])
+        return p
+    if kind == "uniform":
+        _, cnt, seed = task
+        rnd = random.Random(seed)
+        for i in range(cnt):
+            n = rnd.choice([5, 6, 6])
+            full = (1 << (n * (n - 1) // 2)) - 1
+            star = lcorbit.code_of([((1 << n) - 2) if v == 0 else 1 for v in range(n)], n)
+            ring = lcorbit.code_of([(1 << ((v + 1) % n)) | (1 << ((v - 1) % n)) for v in range(n)], n)
+            line = lcorbit.code_of([((1 << (v + 1)) if v + 1 < n else 0) | ((1 << (v - 1)) if v else 0) for v in range(n)], n)
+            code = rnd.choice([full, full, star, ring, line, 0])
+            m = rnd.choice([2, 2, 3])
+            ops = []
+            for _ in range(m):
+                sub = rnd.randrange(1, 1 << n)
+                if rnd.random() < 0.5 and bin(sub).count("1") % 2:
+                    sub ^= 1 << rnd.randrange(n)            # even weight
+                    sub = sub or 3
+                letter = rnd.choice("XYZ")
+                ops.append((sub if letter in "XY" else 0, sub if letter in "ZY" else 0))
+            if rnd.random() < 0.4 and m >= 2:
+                ops[1] = (ops[1][0] | 0, ops[1][1]) if ops[1] != ops[0] else ((1 << n) - 1 if ops[0][0] == 0 else 0, (1 << n) - 1 if ops[0][1] == 0 else 0)
+            ex = contracts.layer_exists(ops, lcorbit.adj_rows(code, n), n) is not None
+            run_case(p, ops, code, n, exists=ex)
+            p.counters["uniform-letter partial set n=%d m=%d" % (n, m)] += 1
         return p
     if kind == "full":
         _, n, seeds, ngraphs, seed = task
